@@ -1010,7 +1010,11 @@ def c16(rep, W, rule="C16"):
                    "%s is reached only after client_id_header returned Ok (allow-list passed); offending: %s" % (d.split("::")[-1], S.failing_vals(g, (bb, "T"), ("is", atom, "ok"))[:1]),
                    where(body, bb))
         rep.floor(rule + ".DOM", fn + " storage-reaching calls", n, 1, where(body))
-        rep.ob(rule + ".DOM", (fn, "helper-on-shared-state"), hargs[0][0] == "upvar" and hargs[1][0] == "upvar",
+        def _root(t_):
+            while t_[0] in ("field", "ok", "mut") or (t_[0] == "call" and t_[3]):
+                t_ = t_[1] if t_[0] in ("field", "ok") else (t_[3] if t_[0] == "mut" else t_[3][0])
+            return t_
+        rep.ob(rule + ".DOM", (fn, "helper-on-shared-state"), len(hargs) >= 2 and all(_root(a)[0] == "upvar" for a in hargs[:2]),
                "client_id_header(%s, %s) is applied to the handler's own state and request" % (P.show(hargs[0]), P.show(hargs[1])), where(body, hs[0][0]), nontrivial=False)
     # HELPER
     hb = W.body(WD.CLIENT_ID_HEADER_FN)
@@ -1259,9 +1263,9 @@ def handler_args(rep, W, rule="H-ARGS"):
         if module != "get_snapshot":
             n += 1
             t = args[2]
-            okp = t[0] == "call" and t[1] == "actix_web::types::path::Path::<T>::into_inner" and t[3][0][0] == "upvar" and \
-                "actix_web::types::path::Path<uuid::Uuid>" in ptypes and ptypes[t[3][0][1]] == "actix_web::types::path::Path<uuid::Uuid>" \
-                if (t[0] == "call" and t[3] and t[3][0][0] == "upvar" and t[3][0][1] < len(ptypes)) else False
+            # `path.into_inner()` or `*path` (Deref is an identity transport): the typed URL extractor parameter itself
+            src = t[3][0] if (t[0] == "call" and t[1] == "actix_web::types::path::Path::<T>::into_inner" and t[3]) else t
+            okp = src[0] == "upvar" and src[1] < len(ptypes) and ptypes[src[1]] == "actix_web::types::path::Path<uuid::Uuid>"
             rep.ob(rule, (fn, "path-id"), okp,
                    "version id passed to Server::%s is %s; must be the id extracted from the URL path (web::Path<Uuid>::into_inner)" % (WD.HANDLER_OP[module], P.show(t)[:100]),
                    where(body, ops[0][0]))
